@@ -80,16 +80,59 @@ Proof.
   repeat split; assumption.
 Qed.
 
+(* a CAS whose structures carry their ids is left unchanged by the JSON save: the views loop assigns no id to a sofa
+   byte array, the traversal assigns none (ConvertInline.json_traversal_same) *)
+Lemma step_view_same L s c fss views v c1 fss1 views1 :
+  (forall o, s_arr (v_sofa v) = Some o -> exists f i, hget (c_heap c) o = Some f /\ o_id f = Some i) ->
+  step_view L s (Ok (c, fss, views)) v = Ok (c1, fss1, views1) -> c1 = c.
+Proof.
+  intros Harr. unfold step_view. cbn [bind].
+  destruct (enc_view (c_heap c) v) as [jv| |]; cbn [bind]; try discriminate.
+  destruct (s_arr (v_sofa v)) as [o|] eqn:Ea.
+  - destruct (Harr o eq_refl) as (f & i & Hg & Hi). rewrite Hg, Hi.
+    destruct (enc_fs L s c f) as [m| |]; cbn [bind]; try discriminate.
+    destruct (enc_sofa L c (v_sofa v)) as [ms| |]; cbn [bind]; try discriminate. intros [= <- _ _]. reflexivity.
+  - cbn [bind]. destruct (enc_sofa L c (v_sofa v)) as [ms| |]; cbn [bind]; try discriminate. intros [= <- _ _]. reflexivity.
+Qed.
+Lemma loop_same L s c : forall vs fss views c1 fss1 views1,
+  (forall v o, In v vs -> s_arr (v_sofa v) = Some o -> exists f i, hget (c_heap c) o = Some f /\ o_id f = Some i) ->
+  fold_left (step_view L s) vs (Ok (c, fss, views)) = Ok (c1, fss1, views1) -> c1 = c.
+Proof.
+  induction vs as [|v r IH]; intros fss views c1 fss1 views1 Harr H; cbn [fold_left] in H; [inversion H; reflexivity|].
+  destruct (step_view L s (Ok (c, fss, views)) v) as [[[c2 fss2] views2]| |] eqn:E;
+    [|rewrite fold_step_err in H; discriminate|rewrite fold_step_oof in H; discriminate].
+  pose proof (step_view_same L s c fss views v c2 fss2 views2 (fun o Ho => Harr v o (or_introl eq_refl) Ho) E) as ->.
+  exact (IH _ _ _ _ _ (fun v' o Hv' => Harr v' o (or_intror Hv')) H).
+Qed.
+Theorem save_json_same L s mode c d c' : wf_convb s c = true -> save_json L s mode c = Ok (d, c') -> c' = c.
+Proof.
+  intros HW HS. destruct (wf_convb_parts s c HW) as (_ & _ & HJ & _).
+  assert (Harr : forall v o, In v (c_views c) -> s_arr (v_sofa v) = Some o -> exists f i, hget (c_heap c) o = Some f /\ o_id f = Some i).
+  { intros v o Hv Ho. unfold wf_jsonb in HJ. destruct (find_all_fs true s c) as [w| |]; try discriminate HJ.
+    apply andb_prop in HJ. destruct HJ as [_ HJ]. rewrite forallb_forall in HJ.
+    assert (Hin : In o (sofa_arrays c)) by (unfold sofa_arrays; apply in_flat_map; exists v; split; [exact Hv|rewrite Ho; left; reflexivity]).
+    specialize (HJ o Hin). destruct (hget (c_heap c) o) as [f|] eqn:Hg; [|discriminate]. apply andb_prop in HJ. destruct HJ as [_ HJ].
+    destruct (o_id f) as [i|] eqn:Hi; [|discriminate]. exists f, i. split; [reflexivity|exact Hi]. }
+  unfold save_json, save_found in HS.
+  destruct (fold_left (step_view L s) (c_views c) (Ok (c, [], []))) as [[[c1 sofa_fs] views]| |] eqn:El; cbn [bind] in HS; try discriminate.
+  pose proof (loop_same L s c _ _ _ _ _ _ Harr El) as ->.
+  destruct (find_all_fs true s c) as [w| |] eqn:Ew; cbn [bind] in HS; try discriminate.
+  rewrite (json_traversal_same s c w HW Ew) in HS.
+  repeat match type of HS with bind ?m _ = _ => destruct m; cbn [bind] in HS; try discriminate HS end.
+  inversion HS. reflexivity.
+Qed.
+
 (* XMI -> CAS -> JSON -> CAS.  c1 is the CAS loaded first, j the JSON document written from it, c1' the same CAS with the
    ids the save assigned (nothing changes when c1 comes from a load: every structure has its id).  What the JSON reader
    builds from j, seen in the XMI view, is the XMI view of c1'. *)
-Theorem xmi_json_xmi L s mode c1 j c1' cc :
+Theorem xmi_json_xmi L s mode c1 j c1' :
   lex_ok L -> save_json L s mode c1 = Ok (j, c1') -> wf_convb s c1' = true -> 0 < c_next_id c1 ->
-  doc_ok_json L s j = true -> initial_view_in c1' = true -> canon_json s c1' = Ok cc ->
-  (do x <- load_json L s j ;; inline_of s x) = Xmi.canon_xmi s c1'.
+  doc_ok_json L s j = true -> initial_view_in c1' = true ->
+  exists x, Xmi.canon_xmi s c1' = Ok x /\ (do y <- load_json L s j ;; inline_of s y) = Ok x.
 Proof.
-  intros HL HS HW HT HD HV HC. destruct (wf_convb_parts s c1' HW) as (_ & _ & HJ & _).
-  exact (xmi_json_xmi_given_outline L s mode c1 j c1' cc HL HS HJ HT HD HV HC (inline_outline_holds s c1' cc HW HC)).
+  intros HL HS HW HT HD HV. destruct (wf_convb_parts s c1' HW) as (_ & _ & HJ & _).
+  destruct (inline_outline_total s c1' HW) as (cc & x & HC & HX & HI). exists x. split; [exact HX|].
+  rewrite <- HX. exact (xmi_json_xmi_given_outline L s mode c1 j c1' cc HL HS HJ HT HD HV HC (inline_outline_holds s c1' cc HW HC)).
 Qed.
 
 (* JSON -> CAS -> XMI -> CAS.  c1 is the CAS loaded first: its JSON view jv is what the JSON document j0 denotes.  x is
@@ -123,15 +166,16 @@ Qed.
 
 (* the two documents written from one CAS whose structures carry their ids: the XMI document denotes the XMI view of what
    the JSON document denotes *)
-Corollary conversion_documents_agree L s mode (fmt_flt : flt -> string) (parse_flt : string -> option flt) c x c' j c'' jv :
+Corollary conversion_documents_agree L s mode (fmt_flt : flt -> string) (parse_flt : string -> option flt) c x c' j c'' :
   lex_ok L -> (forall f, parse_flt (fmt_flt f) = Some f) -> (forall f, Lex.tok_ok (fmt_flt f)) ->
-  Xmi.wf_casb s c = true -> Xmi.save_xmi fmt_flt s c = Ok (x, c') ->
-  save_json L s mode c = Ok (j, c'') -> wf_convb s c'' = true -> 0 < c_next_id c -> canon_json s c'' = Ok jv ->
-  Xmi.canon_xmi s c'' = Xmi.canon_xmi s c ->
+  wf_convb s c = true -> 0 < c_next_id c ->
+  Xmi.save_xmi fmt_flt s c = Ok (x, c') -> save_json L s mode c = Ok (j, c'') ->
   XmiDoc.denote_xmi parse_flt s x = (do jv <- denote_json L s j ;; do v <- inline_of s jv ;; Ok (XmiDoc.norm_xmi s v)).
 Proof.
-  intros HL H1 H2 HWX HX HJ HW HT HC HE. destruct (wf_convb_parts s c'' HW) as (_ & _ & HWJ & _).
-  rewrite (XmiDocOk.denote_save_xmi_wf fmt_flt parse_flt H1 H2 s c x c' HWX HX).
-  rewrite (denote_save_json L s mode c j c'' HL HJ HWJ HT), HC. cbn [bind].
-  rewrite <- HE, <- (inline_outline s c'' jv HW HC). reflexivity.
+  intros HL H1 H2 HW HT HX HJ. destruct (wf_convb_parts s c HW) as (HI & _ & HWJ & _).
+  pose proof (save_json_same L s mode c j c'' HW HJ) as ->.
+  destruct (canon_json_total s c HW) as (jv & HC).
+  rewrite (XmiDocOk.denote_save_xmi_wf fmt_flt parse_flt H1 H2 s c x c' (proj1 (XmiDocOk.wf_inb_parts s c HI)) HX).
+  rewrite (denote_save_json L s mode c j c HL HJ HWJ HT), HC. cbn [bind].
+  rewrite <- (inline_outline s c jv HW HC). reflexivity.
 Qed.
